@@ -47,8 +47,8 @@ let () =
         add ";";
         add (pn (o_req o) ^ "/" ^ pn (o_proc o)); add ";";
         add (join "," (fun (l, oc) ->
-          let ld, cr = (match oc with OOk -> (1, 0) | OParse -> (1, 1) | _ -> (0, 0)) in
-          Printf.sprintf "%s:%d:%d" (pn l) ld cr) (o_stats o));
+          let b x = if x then 1 else 0 in
+          Printf.sprintf "%s:%d:%d" (pn l) (b (stat_loaded oc)) (b (stat_corrupt oc))) (o_stats o));
         add ";"; add (pn (o_rounds o));
         print_endline (Buffer.contents b)
       end
